@@ -136,6 +136,12 @@ func C14(c *Ctx) {
 				spent = true
 			}
 		}
+		if !spent {
+			// the deletion sits on the success path of a helper that checks the state:
+			// every feasible path to the effect passes it
+			at := e.in
+			spent = PathQuery{StartBlock: end.Blocks[0], Cut: dels, Goal: func(i ssa.Instruction) bool { return i == at }}.Find() == nil
+		}
 		r.Check(spent, "C14.spent", en, what, pos, "the state is deleted before the callback acts", "the callback can act ("+e.what+") while the state is still in the session: the same callback can be replayed (the state is not spent by the first callback that matches it)")
 	}
 
@@ -259,10 +265,10 @@ func C14(c *Ctx) {
 	}
 
 	// (5) codec
-	c.oauthPIDCodec()
+	c.oauthPIDCodec("C14.codec")
 }
 
-func (c *Ctx) oauthPIDCodec() {
+func (c *Ctx) oauthPIDCodec(rule string) {
 	r := c.R
 	mk := c.P.Func("ab.MakeOAuth2PID")
 	ps := c.P.Func("ab.ParseOAuth2PID")
@@ -287,13 +293,13 @@ func (c *Ctx) oauthPIDCodec() {
 		sep, _ = constArgStr(call, 1)
 	}
 	if format == "" || sep == "" {
-		r.Unknown("C14.codec", FuncName(mk), "format/separator", "-", "writer format or reader separator not constant")
+		r.Unknown(rule, FuncName(mk), "format/separator", "-", "writer format or reader separator not constant")
 		return
 	}
 	parts := strings.Split(format, sep)
 	isVerb := func(s string) bool { return s == "%s" || s == "%[1]s" || s == "%[2]s" }
 	okW := len(parts) == 3 && isVerb(parts[1]) && isVerb(parts[2]) && !strings.Contains(parts[0], "%")
-	r.Check(okW, "C14.codec", FuncName(mk), "format", c.P.Pos(mk.Pos()), sprintf("%q splits on %q into prefix, provider, uid", format, sep), sprintf("writer format %q is not prefix%sprovider%suid", format, sep, sep))
+	r.Check(okW, rule, FuncName(mk), "format", c.P.Pos(mk.Pos()), sprintf("%q splits on %q into prefix, provider, uid", format, sep), sprintf("writer format %q is not prefix%sprovider%suid", format, sep, sep))
 	if !okW {
 		return
 	}
@@ -313,12 +319,12 @@ func (c *Ctx) oauthPIDCodec() {
 			if viaConcat && concatFormat(ret.Results[0], mk, 0) != "" {
 				direct = true
 			}
-			r.Check(direct, "C14.codec", FuncName(mk), "identifier returned as formatted", posf(c, ret), "no transformation after formatting", "the identifier is transformed after it was formatted ("+SafeString(ret.Results[0])+"): distinct (provider, uid) pairs can collapse into one account identifier, and ParseOAuth2PID no longer returns what the provider reported")
+			r.Check(direct, rule, FuncName(mk), "identifier returned as formatted", posf(c, ret), "no transformation after formatting", "the identifier is transformed after it was formatted ("+SafeString(ret.Results[0])+"): distinct (provider, uid) pairs can collapse into one account identifier, and ParseOAuth2PID no longer returns what the provider reported")
 		}
 	}
 	if viaConcat {
 		// concatFormat numbers the parameters: %[1]s must precede %[2]s
-		r.Check(strings.Index(format, "%[1]s") >= 0 && strings.Index(format, "%[1]s") < strings.Index(format, "%[2]s"), "C14.codec", FuncName(mk), "argument order", c.P.Pos(mk.Pos()), "provider then uid", "writer does not concatenate (provider, uid) in that order")
+		r.Check(strings.Index(format, "%[1]s") >= 0 && strings.Index(format, "%[1]s") < strings.Index(format, "%[2]s"), rule, FuncName(mk), "argument order", c.P.Pos(mk.Pos()), "provider then uid", "writer does not concatenate (provider, uid) in that order")
 	}
 	// writer passes (provider, uid) in that order
 	for _, call := range CallsTo(mk, "fmt.Sprintf") {
@@ -343,10 +349,16 @@ func (c *Ctx) oauthPIDCodec() {
 		if idx[0] != mk.Params[0] || idx[1] != mk.Params[1] {
 			ok = false
 		}
-		r.Check(ok, "C14.codec", FuncName(mk), "argument order", posf(c, call), "provider then uid", "writer does not format (provider, uid) in that order")
+		r.Check(ok, rule, FuncName(mk), "argument order", posf(c, call), "provider then uid", "writer does not format (provider, uid) in that order")
 	}
 	// reader: success return under len(splits)==3 and splits[0]==prefix, returns splits[1], splits[2]
 	pn := FuncName(ps)
+	// … of the identifier as it was handed in: a decoding or normalising step in
+	// front of the split rewrites identifiers the writer produced verbatim
+	for _, call := range CallsTo(ps, "strings.Split") {
+		_, isParam := Arg(call, 0).(*ssa.Parameter)
+		r.Check(isParam, rule, pn, "splits the identifier verbatim", posf(c, call), "the text split is the parameter itself", "the identifier is transformed before it is split ("+SafeString(Arg(call, 0))+"): Parse(Make(provider, uid)) no longer returns (provider, uid) for every uid, so the session's identifier resolves to another pair than the provider reported")
+	}
 	for _, b := range ps.Blocks {
 		for _, in := range b.Instrs {
 			ret, ok := in.(*ssa.Return)
@@ -360,14 +372,14 @@ func (c *Ctx) oauthPIDCodec() {
 				n, isC := ConstInt(rel.Y)
 				return isC && n == int64(len(parts)) && rel.Op == token.EQL && StrLenValue(rel.X) != nil
 			})
-			r.Check(okLen, "C14.codec", pn, "len(segments)==3", pos, "accepts exactly the writer's number of segments", "reader accepts a pid whose number of segments differs from what the writer produces: a uid containing the separator decodes to a different (provider, uid) pair than the one that was encoded")
+			r.Check(okLen, rule, pn, "len(segments)==3", pos, "accepts exactly the writer's number of segments", "reader accepts a pid whose number of segments differs from what the writer produces: a uid containing the separator decodes to a different (provider, uid) pair than the one that was encoded")
 			okPrefix := HasFact(fs, func(f Fact) bool {
 				rel := f.Rel()
 				s, isC := ConstStr(rel.Y)
 				return isC && s == parts[0] && rel.Op == token.EQL && indexConst(rel.X) == 0
 			})
-			r.Check(okPrefix, "C14.codec", pn, "segments[0]==prefix", pos, "demands the writer's prefix", "reader does not demand the writer's prefix "+parts[0])
-			r.Check(indexConst(ret.Results[0]) == 1 && indexConst(ret.Results[1]) == 2, "C14.codec", pn, "returns segments[1], segments[2]", pos, "provider and uid in the writer's order", "reader returns the segments in a different order than the writer wrote them")
+			r.Check(okPrefix, rule, pn, "segments[0]==prefix", pos, "demands the writer's prefix", "reader does not demand the writer's prefix "+parts[0])
+			r.Check(indexConst(ret.Results[0]) == 1 && indexConst(ret.Results[1]) == 2, rule, pn, "returns segments[1], segments[2]", pos, "provider and uid in the writer's order", "reader returns the segments in a different order than the writer wrote them")
 		}
 	}
 }
